@@ -64,3 +64,26 @@
   (ite (fp.lt x (fup 4.0)) 1
   (ite (fp.lt x (fup 7.0)) 2
   (ite (fp.lt x (fup 9.0)) 3 4))))))
+
+; ---- strings: first occurrence of a byte ----
+; firstbyte s b = index of the first byte equal to b in s, or (s.len s) if there is none.
+(declare-fun firstbyte (Str BV8) Int)
+;;AXIOMS firstbyte nextsep elemkey elemval fold parse
+(assert (forall ((s Str) (b BV8))
+  (! (=> (<= 0 (s.len s))
+         (and (<= 0 (firstbyte s b)) (<= (firstbyte s b) (s.len s))
+              (=> (< (firstbyte s b) (s.len s)) (= (select (s.arr s) (+ (s.off s) (firstbyte s b))) b))))
+     :pattern ((firstbyte s b)))))
+; stated over absolute array positions p so that the pattern contains no arithmetic
+(assert (forall ((s Str) (b BV8) (p Int))
+  (! (=> (and (<= (s.off s) p) (< p (+ (s.off s) (firstbyte s b)))) (not (= (select (s.arr s) p) b)))
+     :pattern ((firstbyte s b) (select (s.arr s) p)))))
+;;END
+(define-fun substr ((s Str) (lo Int) (hi Int)) Str (mk-str (s.arr s) (+ (s.off s) lo) (- hi lo)))
+(define-fun emptystr () Str (mk-str ((as const (Array Int (_ BitVec 8))) #x00) 0 0))
+; element end: least j >= s with j = len or byte j = '/'
+(define-fun nextsep ((v Str) (s Int)) Int (+ s (firstbyte (substr v s (s.len v)) #x2f)))
+; key / value of an element "key:value" (no ':' => whole element is the key, value empty)
+(define-fun elemkey ((el Str)) Str (substr el 0 (firstbyte el #x3a)))
+(define-fun elemval ((el Str)) Str
+  (ite (< (firstbyte el #x3a) (s.len el)) (substr el (+ (firstbyte el #x3a) 1) (s.len el)) emptystr))
